@@ -229,13 +229,14 @@ def gen_array_cases(ck: Check, rng: random.Random, be: bool) -> List[Dict[str, A
 
 
 def rt_expr(c: Dict[str, Any], r: Dict[str, Any], B: str) -> str:
-    E = "LE"
+    E = c.get("host", "LE")
     g = cbool(bool(r.get("guards")) and r.get("src_same", True))
     if c["op"] == "copy":
         return (f"(copy_case {B} {E} {c['n']} {zl(c['dst'])} 0 {zl(c['src'])} 0 {c['di']} {c['si']} "
                 f"{zl(r['dst'])} {g})")
     if c["op"] == "base":
-        return (f"(base_case {B} {E} {cbool(c['enc'])} {c['nbits']} {c['i']} {zl(c['s'])} {zl(c['data'])} "
+        fn = "base_case_spec" if B == E else "base_case"
+        return (f"({fn} {B} {E} {cbool(c['enc'])} {c['nbits']} {c['i']} {zl(c['s'])} {zl(c['data'])} "
                 f"{zl(r['s'])} {r['i']} {zl(r['data'])} {g})")
     if c["op"] == "int":
         return (f"(int_case {B} {E} {cbool(c['enc'])} {c['size']} {c['nbits']} {c['i']} {zl(c['s'])} {zl(c['data'])} "
@@ -491,7 +492,7 @@ def run_schemas(ck: Check, be: bool, items: List[Dict[str, Any]], tag: str, all_
                          main_header=s.files[0].base + "_bp.h", top=ctree(s.top), configs=cfgs,
                          all_langs=all_langs, cases=[dict(obj=c["obj"]) for c in it["cases"]]))
     results = run_workers("run_c.py", jobs, chunk=max(1, min(6, len(jobs) // 32 + 1)), timeout=1500, extra_env=env)
-    sh = pyside.Shards(ck, f"sch_{tag}", per_shard=12)
+    sh = pyside.Shards(ck, f"sch_{tag}", per_shard=6)
     stats = dict(schemas=len(items), impl_failures=0, observations=0, distinct_evaluated=0,
                  tie_mismatches=0, spec_mismatches=0, store_mismatches=0, size_mismatches=0,
                  configs=[c["name"] for c in cfgs])
@@ -608,3 +609,134 @@ def _msgs(t: sg.T, acc=None) -> List[sg.T]:
     elif t.kind in ("alias", "arr"):
         _msgs(t.t, acc)
     return acc
+
+
+# --------------------------------------------------------------------------------------
+# check drivers
+# --------------------------------------------------------------------------------------
+
+TRUSTED = ["Coq 8.16.1 kernel + vm_compute", "tools/cparse.py + tools/translate_crt.py (T0)",
+           "tools/run_c.py + ctypes + gcc 12 / clang 14 (T2 executor)", "no axioms (Print Assumptions: closed)"]
+
+
+def prove_and_model(ck: Check, prop_file: str) -> None:
+    ck.assumptions.extend(a for a in ASSUME if a not in ck.assumptions)
+    ck.coverage["trusted_base"] = TRUSTED
+    ck.try_prove(prop_file, model_vo=("theories/CCase.vo",))
+    ok, log = vlib.coq_build(["theories/CCase.vo"])
+    if not ok:
+        ck.model_ok = False
+        raise Broken("the executable model coq/theories/CRt.v does not build against the current translation "
+                     "coq/gen/GenC.v", log[-2500:])
+
+
+def rt_stream(ck: Check, be: bool, what: Sequence[str], tag: str, **kw) -> Dict[str, Any]:
+    rng = random.Random(f"{ck.prop}:{ck.seed}:rt:{tag}")
+    cases: List[Dict[str, Any]] = []
+    if "copy" in what:
+        cases += gen_copy_cases(ck, rng)
+    if "base" in what:
+        cases += gen_base_cases(ck, rng, be)
+    if "int" in what:
+        cases += gen_int_cases(ck, rng)
+    if "array" in what:
+        cases += gen_array_cases(ck, rng, be)
+    st = run_rt(ck, be, cases, tag, **kw)
+    st["ops"] = {op: sum(1 for c in cases if c["op"] == op) for op in ("copy", "base", "int", "sign", "array")}
+    return st
+
+
+def fill_coverage(ck: Check, parts: Dict[str, Dict[str, Any]], items: List[Dict[str, Any]], rule: str) -> None:
+    cov = ck.coverage
+    ev = 0
+    dist = 0
+    for name, st in parts.items():
+        ev += st.get("observations", 0)
+        dist += st.get("distinct_evaluated", 0)
+    cov["evaluations"] = ev
+    cov["distinct_nontrivial"] = dist
+    cov["rule"] = rule
+    cov["tie"] = {**cov.get("tie", {}), **parts}
+    if items:
+        cov["distribution"] = sg.distribution([it["schema"] for it in items])
+        it = items[0]
+        c = it["cases"][0]
+        cov["samples"].append({"schema": it["schema"].texts, "storage": c["obj"], "kind": c["kind"],
+                               "origin": it["origin"]})
+
+
+RULE = ("direct calls: (n, di, si) sweep of BpCopyBufferBits on exact-size guarded buffers (quick: boundary n x 8 x 8, "
+        "thorough: all n <= 130) plus random destinations / pointer bumps; BpEndecodeBaseType, BpEndecodeInt, "
+        "BpHandleIntSignAfterEndecode for every width 1..64 x offset; BpEndecodeArray over element kinds. generated "
+        "code: schemas from tools/schema_gen.py x storage contents (in-range values in modes random/max/min/zero/"
+        "ones, overdriven values, arbitrary junk) on raw struct memory laid out from a gcc offsetof probe. an "
+        "evaluation = one call observed on one build configuration; distinct = distinct (input, observation) pairs "
+        "evaluated in Coq against model and specification")
+
+
+def run_c03(ck: Check) -> None:
+    prove_and_model(ck, "C03.v")
+    parts: Dict[str, Dict[str, Any]] = {}
+    items = load_corpus("C03") + gen_schema_cases(ck, ck.n(100, 1500), ck.n(4, 6), 2)
+    parts["runtime_LE"] = rt_stream(ck, False, ("copy", "base", "int", "array"), "le")
+    parts["schemas_LE"] = run_schemas(ck, False, items, "g", all_langs=False)
+    if not ck.quick:
+        env = san_env()
+        scfg = [dict(name="gcc-asan-ubsan", cc="gcc", flags=SAN_FLAGS)]
+        parts["runtime_LE_sanitizers"] = rt_stream(ck, False, ("copy", "base", "int", "array"), "san", cfgs=scfg, env=env)
+        parts["schemas_LE_sanitizers"] = run_schemas(ck, False, items[:300], "sg", cfgs=scfg, env=env)
+    fill_coverage(ck, parts, items, RULE)
+
+
+def gen_base_rev_cases(ck: Check, rng: random.Random) -> List[Dict[str, Any]]:
+    """BE build fed byte-reversed (big-endian) storage: BpEndecodeBaseType of the BE build has no
+    native multi-byte access, so on x86 this IS the (B,E)=(BE,BE) behaviour"""
+    cases = []
+    for nbits in range(1, 65):
+        size = storage_bytes(nbits)
+        for i in range(8):
+            for enc in (True, False):
+                slen = nbytes_for(i + nbits)
+                if enc:
+                    z = rng.getrandbits(i) if i else 0
+                    s = list(z.to_bytes(slen, "little"))
+                    data = [rng.randrange(256) for _ in range(size)]
+                else:
+                    s = [rng.randrange(256) for _ in range(slen)]
+                    data = [0] * size
+                cases.append(dict(op="base", enc=enc, nbits=nbits, i=i, s=s, data=data, host="BE"))
+    return cases
+
+
+def run_c06(ck: Check) -> None:
+    prove_and_model(ck, "C06.v")
+    parts: Dict[str, Dict[str, Any]] = {}
+    items = load_corpus("C06") + gen_schema_cases(ck, ck.n(80, 1200), ck.n(3, 5), 2)
+    parts["runtime_BE_build_on_LE_host"] = rt_stream(ck, True, ("copy", "base", "int", "array"), "be")
+    rng = random.Random(f"{ck.prop}:{ck.seed}:rev")
+    parts["base_type_BE_build_BE_storage"] = run_rt(ck, True, gen_base_rev_cases(ck, rng), "rev")
+    parts["schemas_BE_build_on_LE_host"] = run_schemas(ck, True, items, "b")
+    if not ck.quick:
+        env = san_env()
+        scfg = [dict(name="be-gcc-asan-ubsan", cc="gcc", flags=SAN_FLAGS + ["-DBP_BIG_ENDIAN"])]
+        parts["schemas_BE_sanitizers"] = run_schemas(ck, True, items[:300], "sb", cfgs=scfg, env=env)
+    fill_coverage(ck, parts, items, RULE + "; C06: everything on the -DBP_BIG_ENDIAN build, model at (B,E)=(BE,LE); "
+                  "base types additionally with big-endian storage, model at (BE,BE), compared with the specification")
+
+
+def run_c07_c_half(ck: Check) -> Dict[str, Dict[str, Any]]:
+    """the C half of C07: bounds (exact-size guarded buffers), containment of out-of-range storage,
+    and the size constants of the three emitters"""
+    prove_and_model(ck, "C07.v")
+    parts: Dict[str, Dict[str, Any]] = {}
+    items = load_corpus("C07") + gen_schema_cases(ck, ck.n(80, 1200), 1, ck.n(4, 8))
+    parts["c_runtime_bounds"] = rt_stream(ck, False, ("copy", "base", "array"), "le")
+    parts["c_schemas_overdriven_storage_and_size_constants"] = run_schemas(ck, False, items, "g", all_langs=True)
+    if not ck.quick:
+        env = san_env()
+        scfg = [dict(name="gcc-asan-ubsan", cc="gcc", flags=SAN_FLAGS)]
+        parts["c_runtime_sanitizers"] = rt_stream(ck, False, ("copy", "base", "array"), "san", cfgs=scfg, env=env)
+        parts["c_schemas_sanitizers"] = run_schemas(ck, False, items[:400], "sg", cfgs=scfg, env=env)
+    ck.coverage.setdefault("c_half_items", len(items))
+    ck._c07_items = items       # for fill_coverage by the caller
+    return parts
